@@ -472,6 +472,8 @@ impl Case {
                 let kind = match atom(&l[2]).as_str() {
                     "main" => "main",
                     "A" => "A",
+                    "X" => "X",
+                    "XU" => "XU",
                     _ => "U",
                 };
                 Query {
@@ -717,7 +719,7 @@ pub fn run_case(c: &Case, workdir: &str) -> (String, String) {
             Err(e) => (format!("(error {})", hex(e.as_bytes())), "(error)".to_string()),
         };
         let on = d.sql(&q.sql);
-        let off = if q.kind == "main" {
+        let off = if q.kind == "main" || q.kind == "X" {
             let _ = d.sql("pragma disable_optimizer");
             let r = d.sql(&q.sql);
             let _ = d.sql("pragma enable_optimizer");
